@@ -367,6 +367,19 @@ class C03(Base):
                 h.release("hf")
                 h.release(hr)
                 h.await_(rs)
+            elif cfg["shard_count"] == 1 and i % 4 == 0:
+                # both flows of a read are parked at their start, the flush runs to its very end (publication, release,
+                # pruning, in-flight marker dropped), then the flows run: whatever the read decided when it was planned,
+                # the events are in the published segment now and must be found there
+                t = rng.choice(types)
+                hm = h.hold_next("read.mem.start")
+                hs = h.hold_next("read.seg.start")
+                rs = h.select(t, tag="late-flows", **{"async": True}) if rng.random() < 0.6 else h.replay(rng.choice(ctxs), tag="late-flows", **{"async": True})
+                h.release("hf")
+                h.barrier()
+                h.release(hs)
+                h.release(hm)
+                h.await_(rs)
             else:
                 h.release("hf")
             cp("released")
@@ -1360,9 +1373,14 @@ class C13(Base):
                         sig = sign(key, "PING")
                     meta = dict(meta, form="conn", bad=bad, user=user, auth_step=stt["token_step"])
                     return h.cmd(f"{sig}:{cmd}", meta, conn=c)
-                # token form: send it on a fresh, unauthenticated connection so that only the token can authenticate it
-                tc = 200 + next_conn[0]
-                next_conn[0] += 1
+                # token form: send it on a fresh, unauthenticated connection so that only the token can authenticate it -
+                # or, every other time, on the very connection that obtained the token (a connection must not trust a
+                # token merely because it handed it out itself)
+                if rng.random() < 0.5:
+                    tc = c
+                else:
+                    tc = 200 + next_conn[0]
+                    next_conn[0] += 1
                 tok = "{{TOKEN:%d}}" % stt["token_step"]
                 if bad == "truncated":
                     tok = "deadbeef"
@@ -1604,8 +1622,8 @@ class C15(Base):
                    "segments_per_merge": 2, "wal": {"flush_each_write": True, "buffered": False}}
             h = H(seed, "C15", cfg, uid_salt=f"C15-{seed}-{i}")
             h.life(end="shutdown", tick_ms=rng.choice([1000, 1000, 0, 500]))
-            h.define("pv", {"k": "int", "uid": "string", "page": "string"})
-            h.define("oc", {"k": "int", "uid": "string", "st": "string"})
+            h.define("pv", {"k": "int", "uid": "string", "page": "string", "acct": "int | null"})
+            h.define("oc", {"k": "int", "uid": "string", "st": "string", "acct": "int | null"})
             uids = [f"u{j}" for j in range(rng.choice([2, 3, 5]))]
             ctxs = [f"c{j}" for j in range(rng.choice([1, 2, 4]))]
             queries = []
@@ -1623,12 +1641,16 @@ class C15(Base):
                 lim = rng.choice([None, None, 1, 2])
                 if lim is not None:
                     feat.append("LIMIT")
-                text = f"QUERY {a} {rel} {b} LINKED BY uid"
+                # a third of the queries link by a nullable integer key (events without the key link to nothing)
+                link = "acct" if rng.random() < 0.35 else "uid"
+                if link == "acct":
+                    feat.append("LINK:int-nullable")
+                text = f"QUERY {a} {rel} {b} LINKED BY {link}"
                 if conds:
                     text += " WHERE " + " AND ".join(f'{t}.{f}="{v}"' for t, f, v in conds)
                 if lim is not None:
                     text += f" LIMIT {lim}"
-                queries.append((text, {"kind": "seq", "a": a, "b": b, "rel": rel, "link": "uid", "conds": conds, "limit": lim,
+                queries.append((text, {"kind": "seq", "a": a, "b": b, "rel": rel, "link": link, "conds": conds, "limit": lim,
                                        "feat": "seq:" + "+".join(feat)}))
 
             def st():
@@ -1636,10 +1658,11 @@ class C15(Base):
                 extra = {}
                 if rng.random() < 0.3:
                     extra["wall_advance_ms"] = rng.choice([0, 1000, 5000])
+                acct = rng.choice([None, None, 7, 8, 9, 1000000])
                 if rng.random() < 0.5:
-                    h.store("pv", rng.choice(ctxs), {"k": k, "uid": rng.choice(uids), "page": rng.choice(["/checkout", "/home"])}, k=k, **extra)
+                    h.store("pv", rng.choice(ctxs), {"k": k, "uid": rng.choice(uids), "page": rng.choice(["/checkout", "/home"]), "acct": acct}, k=k, **extra)
                 else:
-                    h.store("oc", rng.choice(ctxs), {"k": k, "uid": rng.choice(uids), "st": rng.choice(["done", "open"])}, k=k, **extra)
+                    h.store("oc", rng.choice(ctxs), {"k": k, "uid": rng.choice(uids), "st": rng.choice(["done", "open"]), "acct": acct}, k=k, **extra)
 
             def cp(tag):
                 h.step({"op": "barrier", "meta": {"kind": "checkpoint", "tag": tag}})
